@@ -454,6 +454,12 @@ func (e *Engine) registerCrypto() {
 	}
 	in["des3rtkuf:"+rtPkg+".DES3RandomToKey"] = des3rtk
 	in["des3rtkuf:github.com/jcmturner/gokrb5/v8/crypto/rfc3961.DES3RandomToKey"] = des3rtk
+	ocadd := func(r *Run, fr *Frame, cc *ssa.CallCommon, a []Value) Value {
+		x, y := sliceBytes(a[0].(*SliceV)), sliceBytes(a[1].(*SliceV))
+		return r.bytesToSlice(ufBytes("OCADD", len(x), x, y))
+	}
+	in["ocadduf:"+rtPkg+".OnesAdd"] = ocadd
+	in["ocadduf:github.com/jcmturner/gokrb5/v8/crypto/rfc3961.onesComplementAddition"] = ocadd
 	in[rtPkg+".Nfold"] = nfold
 	// summary of the real n-fold by the same symbol (its own correctness is a separate obligation, C08)
 	in["nfolduf:github.com/jcmturner/gokrb5/v8/crypto/rfc3961.Nfold"] = nfold
